@@ -292,6 +292,42 @@ func genC06(rng *hx.Rng, tier string, w *hx.Writer) error {
 			}
 		}
 	}
+	// one key OBJECT used for several verifications and marshalled afterwards: the verdicts are those of
+	// the unchanged key and the key's encoding is what it was
+	for _, x := range []*big.Int{big.NewInt(1), new(big.Int).Sub(q, big.NewInt(1)), rng.BigBelow(q), rng.BigBelow(q)} {
+		if x.Sign() == 0 {
+			continue
+		}
+		msg := rng.Bytes(1 + rng.Intn(60))
+		sig, err := bls.Sign(Bn, Sc(Bn.G2(), x, q), msg)
+		if err != nil {
+			continue
+		}
+		neg := contractNegate(sig)
+		before := PtBytes(Pt(Bn.G2(), x, q))
+		seq := hx.Catch(func() string {
+			X := Bn.G2().Point().Mul(Sc(Bn.G2(), x, q), nil)
+			r := make([]string, 0, 5)
+			for _, sg := range [][]byte{sig, sig, neg, sig} {
+				if bls.Verify(Bn, X, append([]byte{}, msg...), append([]byte{}, sg...)) == nil {
+					r = append(r, "z1")
+				} else {
+					r = append(r, "z0")
+				}
+			}
+			if bytes.Equal(PtBytes(X), before) {
+				r = append(r, "z1")
+			} else {
+				r = append(r, "z0")
+			}
+			return hx.L(r...)
+		})
+		oracle := "ok"
+		if seq != hx.L("z1", "z1", "z0", "z1", "z1") {
+			oracle = hx.Fail("verify-differs-from-evm", "one key object, verifications of (valid, valid, negated, valid) and then the key's encoding compared with what it was: got "+seq+", want accept, accept, reject, accept, unchanged")
+		}
+		w.Put(hx.Case{Entry: "-", Op: 0, Args: hx.L(hx.Z(x), hx.B(msg)), Impl: seq, Oracle: oracle, Tags: []string{"key-object-reused", "nt"}})
+	}
 	// secret key 0 on both sides: the contract equation holds for the identity key and the identity
 	// signature (the EVM encoding of the G2 identity is four zero words), and for nothing else
 	{
